@@ -307,3 +307,69 @@ def rule_index_deletion_descending(ctx, rule_id, module_prefixes):
                       file=fi.module.relpath, line=d.lineno, function=fi.qualname,
                       expected="for i in reversed(sorted(positions)): del xs[i]", found=short(lp.iter, 80))
     return n
+
+
+def alias_then_mutate_sites(fi):
+    """[(alias assignment, mutating node)] `self.x = <something read from an argument, not copied>` followed, in the same
+    function, by an in-place update of self.x (`&=`, `|=`, `+=`, `-=`, .add/.update/.append/...): the update lands in the
+    ARGUMENT's object as well."""
+    out = []
+    params = set(fi.all_param_names()) - {"self"}
+    loopvars = {}
+    for lp in body_walk(fi.node):
+        if isinstance(lp, ast.For):
+            root = lp.iter
+            while isinstance(root, (ast.Attribute, ast.Subscript, ast.Call)):
+                root = root.func if isinstance(root, ast.Call) and not isinstance(root.func, ast.Name) else (
+                    root.args[0] if isinstance(root, ast.Call) and root.args else getattr(root, "value", None))
+                if root is None:
+                    break
+            for n_ in ast.walk(lp.target):
+                if isinstance(n_, ast.Name):
+                    loopvars[n_.id] = True
+    foreign = params | set(loopvars)
+    for a_ in body_walk(fi.node):
+        if not (isinstance(a_, ast.Assign) and len(a_.targets) == 1 and isinstance(a_.targets[0], ast.Attribute)
+                and isinstance(a_.targets[0].value, ast.Name) and a_.targets[0].value.id == "self"):
+            continue
+        v = a_.value
+        if isinstance(v, ast.Call):
+            continue                         # set(...), list(...), copy(...): a new object
+        root = v
+        while isinstance(root, (ast.Attribute, ast.Subscript)):
+            root = root.value
+        if not (isinstance(root, ast.Name) and root.id in foreign) or isinstance(v, ast.Name) and v.id not in foreign:
+            continue
+        if isinstance(v, ast.Name):
+            continue                         # storing the argument itself is ownership by convention, not judged here
+        tgt = norm(a_.targets[0])
+        for m_ in body_walk(fi.node):
+            if isinstance(m_, ast.AugAssign) and norm(m_.target) == tgt and isinstance(m_.op, (ast.BitAnd, ast.BitOr, ast.BitXor, ast.Sub, ast.Add)):
+                out.append((a_, m_))
+            if isinstance(m_, ast.Call) and isinstance(m_.func, ast.Attribute) and norm(m_.func.value) == tgt and m_.func.attr in (
+                    "add", "update", "append", "extend", "insert", "remove", "discard", "pop", "clear", "intersection_update",
+                    "difference_update", "symmetric_difference_update", "setdefault", "sort", "reverse"):
+                out.append((a_, m_))
+    return out
+
+
+def rule_no_alias_then_mutate(ctx, rule_id, module_prefixes):
+    run = ctx.run
+    prog = ctx.prog
+    n = 0
+    for fi in sorted(prog.functions.values(), key=lambda f: f.id):
+        if fi.module.relpath.startswith("stix2/test") or not fi.module.name.startswith(tuple(module_prefixes)) or fi.cls is None:
+            continue
+        n += 1
+        seen = set()
+        for a_, m_ in alias_then_mutate_sites(fi):
+            t_ = norm(a_.targets[0])
+            if t_ in seen:
+                continue
+            seen.add(t_)
+            run.violation(rule_id, key(fi.module.relpath, fi.qualname, "argument-state-not-aliased:%s" % t_),
+                          "%s is bound to an object read from an argument (%s) and then updated in place (%s): the update changes "
+                          "the argument's object too -- an expression used as an operand is silently modified" % (
+                              t_, short(a_.value, 40), short(m_, 50)), file=fi.module.relpath, line=m_.lineno, function=fi.qualname,
+                          expected="%s = set(...) / list(...) copy before updating" % t_, found=short(a_, 80))
+    return n
